@@ -67,6 +67,8 @@ def code_of(kind, ident, d):
         snd.append('send(%s)' % ', '.join(args))
     nts = ["notify('m%d')" % m for m in d['nots']]
     lines += (nts + snd) if d.get('nf') else (snd + nts)
+    if ident % 3 == 0 and len(lines) > 1:
+        lines.insert(1, '  ' if ident % 2 else '\t')      # an inner line of blanks only (kept as it is by a round trip)
     if d['tick']:
         lines.append('tick(%d)' % d['tick'])
     return '\n'.join(lines)
